@@ -16,7 +16,8 @@ func init() {
 		"(R4) unknown version / entry type ⇒ error in both serializers, RawLogEntryFromLeaf and ToLogEntry (decision tables over the compared constants); "+
 		"(R5) every tls.Unmarshal in the module compares the remaining bytes with 0 and the trailing-bytes outcome executes no accept-only code and returns no success (17 sites; named exceptions: the pretty-printer and the log-only validation in get-entries); "+
 		"(R6) the JSON API messages have the RFC 6962 s4 field names and Go kinds (base64 via []byte), the URL paths are the RFC's, ToSignedCertificateTimestamp / ToSignedTreeHead / DigitallySigned / SHA256Hash JSON conversions forward every field, use standard base64 and reject lengths other than 32. "+
-		"NOT covered: that the reflect-driven codec interprets the tags as documented (C09), byte equality for concrete values and the 1/2/3-byte length boundaries at run time, out-of-range lengths inside the codec, JSON encoding performed by encoding/json itself.",
+		"(R9, rule sets R1-R4, R6, R10 of C09) the reflect-driven codec applies widths, field order, selectors and the minlen..maxlen / maxval bounds of the tags identically when writing and reading, and the bounds gate every accepting path of both directions (an out-of-range length or enum value is an error on every path, so encoder and decoder agree on the set of values). "+
+		"NOT covered: semantics of package reflect, byte equality for concrete values and the 1/2/3-byte length boundaries at run time, panics / allocation bounds / integer conversions inside the codec (C09.R5, R7-R9), JSON encoding performed by encoding/json itself.",
 		runC04)
 }
 
@@ -106,7 +107,7 @@ var c04RestMarkers = map[string]string{
 }
 
 func runC04(r *Run) {
-	r.Assume("the tls codec interprets struct tags as documented on tls.Unmarshal (decided separately under C09)")
+	r.Assume("package reflect reports struct fields, tags and kinds as declared; how the tls codec turns the tags into bytes is decided by the shared rule sets of C09 (R9), its memory safety separately under C09")
 	r.Assume("encoding/json renders []byte as standard base64 and uses the json tag names")
 	c04Wires(r)
 	c04Constants(r)
@@ -125,6 +126,13 @@ func runC04(r *Run) {
 	r.Shared("C04.R8", func() {
 		r.Rule("C03.R9")
 		c03SCTListReader(r)
+	})
+
+	// the codec the structures are written and read with: widths, order and bounds of the tags are
+	// applied identically in both directions, and the bounds gate every accepting path (rule sets
+	// of C09 that decide WHICH bytes are produced / accepted; the memory-safety sets stay with C09)
+	r.Shared("C04.R9", func() {
+		c09Run(r, map[string]bool{"C09.R1": true, "C09.R2": true, "C09.R3": true, "C09.R4": true, "C09.R6": true, "C09.R10": true})
 	})
 }
 
